@@ -86,10 +86,17 @@ CHECKS.update({
              'InspectWrapper.formats/format: the full decision table over '
              'symbolic per-inspector complete/match booleans, finished flag, '
              'raw allowed or not and every set iteration order; '
-             'InspectWrapper.__init__ honours allowed_formats; VMDK/VHDX '
-             'format_match totality. BOUNDED: no-revision of an early '
-             'decision over real streams and detect_file_format (generator '
-             'with consumer-dependent early exit is outside the subset).',
+             'InspectWrapper.__init__ honours allowed_formats whatever '
+             'expected_format is; VMDK/VHDX format_match totality. '
+             'No-revision: (a) with per-inspector stability as hypothesis, a '
+             'decision or ambiguity error reported before EOF is the same '
+             'after any further reads and after EOF (symbolic booleans); (b) '
+             'stability itself - complete stays complete and format_match '
+             'keeps its value - per fixed-layout class from the spec '
+             'verdicts, for VHDX and the VMDK sparse class from their '
+             'class relations R(S,q), R(S,q\'). detect_file_format / '
+             'from_file are under contract (lazy generators). BOUNDED: the '
+             'same clauses over real streams, files and read sizes.',
         note='Trusted: pyvc, z3, A-STATIC.',
         ref='DESIGN.md section 4 C03'),
     'C06': dict(
